@@ -292,6 +292,9 @@ pub struct RunSpec {
     pub may_forget: bool,
     /// run inside tokio's cooperative budget
     pub coop: bool,
+    /// histories: this run's options carry a `reborrow()` of an interruptibility state
+    /// that the previous run used too (signal and counters persist across the runs)
+    pub share_intr_state: bool,
     /// how many times `StreamOpts::rev()` is called when `reverse` (documented as
     /// idempotent): 1..=3
     pub rev_calls: u8,
@@ -579,6 +582,7 @@ impl RunSpec {
             "may_abort": self.may_abort,
             "may_forget": self.may_forget,
             "coop": self.coop,
+            "share_intr_state": self.share_intr_state,
             "rev_calls": self.rev_calls,
             "intr_hooks": self.intr_hooks,
             "signals_anytime": self.signals_anytime,
@@ -609,6 +613,7 @@ impl RunSpec {
             may_abort: v.get("may_abort")?.as_bool()?,
             may_forget: v.get("may_forget")?.as_bool()?,
             coop: v.get("coop").and_then(|c| c.as_bool()).unwrap_or(false),
+            share_intr_state: v.get("share_intr_state").and_then(|c| c.as_bool()).unwrap_or(false),
             rev_calls: v.get("rev_calls").and_then(|c| c.as_u64()).unwrap_or(1) as u8,
             intr_hooks: v.get("intr_hooks").and_then(|c| c.as_bool()).unwrap_or(false),
             signals_anytime: v.get("signals_anytime").and_then(|c| c.as_bool()).unwrap_or(false),
